@@ -533,6 +533,23 @@ def rule_lzma_header(facts):
     tp, tl = Terms(p), Terms(el)
     okk = True
     # pos_state mask in process and finish
+    def fn_of_one_leaf(idx, dom):
+        """The index term as a function of its single non-constant leaf, tabulated over dom (None if it is not one)."""
+        out = []
+        for v in dom:
+            seen = set()
+
+            def lf(q, v=v):
+                seen.add(q)
+                if len(seen) > 1:
+                    raise pat.NotEvaluable(q)
+                return v
+            try:
+                out.append(pat.eval_term(idx, lf))
+            except (pat.NotEvaluable, pat.Overflow):
+                return None
+        return out
+
     masks = []
     for body, t_ in ((p, tp), (f, Terms(f))):
         for blk in body.calls():
@@ -541,13 +558,11 @@ def rule_lzma_header(facts):
                 for q in _subterms(a):
                     if q[0] == "index" and pat.strip(q[1]) and pat.strip(q[1])[0] == "field" and pat.strip(q[1])[1] == "is_match":
                         idx = q[2] if len(q) > 2 else None
-                        if idx and idx[0] == "BitAnd" and idx[2][0] == "const":
-                            masks.append(idx[2][1])
-                        else:
-                            masks.append(None)
-    if not masks or any(m != (1 << pb) - 1 for m in masks):
+                        tab = fn_of_one_leaf(idx, range(0, 64)) if idx else None
+                        masks.append(tab == [v & ((1 << pb) - 1) for v in range(0, 64)])
+    if not masks or not all(masks):
         okk = False
-        r.bad("lzmahdr|pb", "the header declares pb = %d but is_match is indexed with masks %s (expected %d)" % (pb, masks, (1 << pb) - 1), pat.where(p))
+        r.bad("lzmahdr|pb", "the header declares pb = %d but is_match is not indexed with (bytes encoded) mod %d" % (pb, 1 << pb), pat.where(p))
     # literal context: prev >> (8 - lc), lp must be 0
     shifts = []
     for blk in el.calls():
@@ -555,15 +570,12 @@ def rule_lzma_header(facts):
             a = tl.of_operand(blk.term.args[1])
             for q in _subterms(a):
                 if q[0] == "index" and len(q) > 2 and pat.strip(q[1]) and pat.strip(q[1])[0] == "field" and pat.strip(q[1])[1] == "literal_probs":
-                    idx = q[2]
-                    if idx[0] == "Shr" and idx[2][0] == "const" and pat.has_arg(idx[1]):
-                        shifts.append(idx[2][1])
-                    else:
-                        shifts.append(None)
-    if lp != 0 or not shifts or any(s != 8 - lc for s in shifts):
+                    tab = fn_of_one_leaf(q[2], range(0, 256))
+                    shifts.append(tab == [v >> (8 - lc) for v in range(0, 256)])
+    if lp != 0 or not shifts or not all(shifts):
         okk = False
-        r.bad("lzmahdr|lc-lp", "the header declares lc = %d, lp = %d but the literal context is prev >> %s (needs lp = 0 and prev >> %d)"
-              % (lc, lp, shifts, 8 - lc), pat.where(el))
+        r.bad("lzmahdr|lc-lp", "the header declares lc = %d, lp = %d but the literal context is not prev >> %d with lp = 0"
+              % (lc, lp, 8 - lc), pat.where(el))
     adt = facts.adt("encode::dumbencoder::Encoder")
     if adt:
         ft = {x["name"]: x["ty"] for x in adt["variants"][0]["fields"]}
